@@ -27,6 +27,7 @@ struct Outcome {
     int key_id = -1; int rc = 0;            // rotate ops
     bool after_fatal = false;               // an earlier operation of this thread had a fatal alert hit a session of the presented id
     bool srv_alerted = false;               // fatalres: the server did send a fatal alert
+    bool ems_flip = false;                  // the stored TLS <= 1.2 session is presented WITHOUT the extended_master_secret extension it was made with
 };
 
 struct Shared {
@@ -47,6 +48,7 @@ struct ThreadCtx {
     std::vector<Outcome> out;
     uint64_t fp = 0;
     std::vector<std::unique_ptr<TlsWorld>> held;   // connections this thread keeps open across later operations (several holders of one cache entry)
+    int sess_ems = 1;                              // was the session this thread's client currently holds made with extended_master_secret?
     int fatal_since_full = 0;                      // a fatal alert hit a session of this thread's current id since its last full handshake
 };
 
@@ -68,6 +70,9 @@ void run_conn(ThreadCtx &T, const Op &op, int opi) {
     else if (T.sh->server_kind == KK_EC256) { pc.suites = { (uint16_t) (ver == 0 && (op.c & 2) ? TLS_ECDHE_ECDSA_WITH_AES_128_GCM_SHA256 : TLS_ECDHE_ECDSA_WITH_AES_128_CBC_SHA) }; }
     else { pc.suites = { (uint16_t) ((op.c & 2) ? TLS_RSA_WITH_AES_128_CBC_SHA : (ver == 0 ? TLS_ECDHE_RSA_WITH_AES_128_GCM_SHA256 : TLS_ECDHE_RSA_WITH_AES_128_CBC_SHA)) }; }
     if (T.sh->crl_mode) { pc.cb_c = CB_STRICT; }
+    if ((op.d & 4) && !tls13 && op.k != "full") { pc.ems_c = -1; }
+    int ems_now = pc.ems_c == -1 ? 0 : 1;
+    o.ems_flip = !tls13 && op.k != "full" && ems_now != T.sess_ems;     // RFC 7627: the server must refuse to resume such a session and do a full handshake
     pc.groups_c = { (uint16_t) ((op.c & 1) ? 24 : 23) };     // secp384r1 / secp256r1: alternates the shared ephemeral-key cache between hit and regenerate
     if (op.k == "full") { vsim_set_node(NODE_HARNESS); matrixSslClearSessionId(T.sid); }
     // what is presented
@@ -90,7 +95,7 @@ void run_conn(ThreadCtx &T, const Op &op, int opi) {
         o.ok = w.handshake();
         o.resumed_s = o.ok && w.srv->is_resumed(); o.resumed_c = o.ok && w.cli->is_resumed();
         o.err_c = w.cli->first_error; o.err_s = w.srv->first_error;
-        if (o.ok && !o.resumed_s) { T.fatal_since_full = 0; }     // a new session was established: the client now holds a fresh id
+        if (o.ok && !o.resumed_s) { T.fatal_since_full = 0; T.sess_ems = tls13 ? 1 : ems_now; }     // a new session was established: the client now holds a fresh id
         if (o.ok) {
             Bytes a = tagged_payload(0, T.idx * 100 + opi, 60 + (size_t) T.idx), b = tagged_payload(1, T.idx * 100 + opi, 90 + (size_t) opi);
             w.cli->app_send(a.data(), a.size()); w.srv->app_send(b.data(), b.size()); w.pump();
@@ -211,7 +216,7 @@ static Plan c20_gen(uint64_t seed, int tier, uint64_t index) {
             if (i == 0) { p.ops.push_back(Op("full", t, ver, c, tick)); continue; }
             unsigned k = (unsigned) r.below(20);
             if (overlap && k < 9) { static const char *OV[] = { "hold", "hold", "fatalres", "release" }; p.ops.push_back(Op(OV[r.below(4)], t, ver, c, tick)); }
-            else if (k < 12) { p.ops.push_back(Op("resume", t, ver, c, tick)); }
+            else if (k < 12) { p.ops.push_back(Op("resume", t, ver, c, tick | (r.chance(1, 8) ? 4 : 0))); }
             else if (k < 16 || rotates >= 2) { if (r.chance(1, 2)) { ver = (int) r.below(3); tick = (int) r.below(2); suite_bit = (int64_t) r.below(2) * 2; c = (c & 1) | suite_bit; } p.ops.push_back(Op("full", t, ver, c, tick)); }
             else { rotates++; p.ops.push_back(Op("rotate", t, 0, (int64_t) r.below(3))); }
         }
@@ -259,6 +264,16 @@ static std::vector<Plan> c20_fixed(int tier) {
                 }
                 v.push_back(p);
             }
+        }
+    }
+    // a resumption the server has to refuse (extended_master_secret usage differs from the cached session) while other threads use the cache
+    for (int ver : { 0, 2 }) {
+        for (int d = 0; d < 3; d++) {
+            Plan p; p.seed = 202000 + (uint64_t) (ver * 10 + d);
+            p.cfg["threads"] = 3; p.cfg["sid_kind"] = d & 1 ? KK_RSA2048 : KK_EC256; p.cfg["ckshare"] = 0; p.cfg["sden"] = DEN2[d]; p.cfg["kmask"] = 0x1f;
+            p.ops.push_back(Op("full", 0, ver, 0, 0)); p.ops.push_back(Op("resume", 0, ver, 0, 4)); p.ops.push_back(Op("resume", 0, ver, 0, 0));
+            for (int t = 1; t < 3; t++) { p.ops.push_back(Op("full", t, ver, 0, 0)); p.ops.push_back(Op("resume", t, ver, 0, 0)); p.ops.push_back(Op("full", t, ver, 1, 0)); p.ops.push_back(Op("resume", t, ver, 1, 0)); }
+            v.push_back(p);
         }
     }
     return v;
@@ -349,6 +364,7 @@ static RunResult c20_exec(const Plan &p) {
                 break;
             }
             if (!o.ok && revoke_possible) { res.count("conn.refused_revoked_certificate"); continue; }
+            if (!o.ok && o.ems_flip) { res.count("conn.refused_ems_mismatch"); continue; }     // RFC 7627 5.3: the server aborts, or falls back to a full handshake; both are sequentially possible
             if (!o.ok) {
                 res.violate("session_failed_under_concurrency", ctx, "T" + std::to_string(o.thread) + " op " + std::to_string(o.opi) + " (" + ctx + "): the handshake did not complete (client err " + std::to_string(o.err_c) + ", server err " +
                             std::to_string(o.err_s) + ") although it completes in every sequential order of the same operations");
@@ -358,6 +374,7 @@ static RunResult c20_exec(const Plan &p) {
             if (o.resumed_s != o.resumed_c) { res.violate("endpoints_disagree_on_resumption", ctx, "T" + std::to_string(o.thread) + " op " + std::to_string(o.opi) + ": server resumed=" + std::to_string(o.resumed_s) + " client resumed=" + std::to_string(o.resumed_c)); break; }
             // which outcomes does some sequential order allow?
             bool may_resume = false, may_full = true;
+            if (o.ems_flip) { is_res = false; }     // falls to the defaults: full handshake only
             if (is_res && o.mech == "id") { may_resume = !o.after_fatal; may_full = conns > 30 || o.after_fatal; }        // the cache (32 entries) cannot have evicted it
             else if (is_res && (o.mech == "ticket" || o.mech == "psk13")) {
                 // the key that minted the ticket: still loaded in every order / retired in every order / concurrent with the retirement
